@@ -156,3 +156,43 @@ func VerifC13_TwoCachedFilters() {
 	vcheck("unlocked-after-join", !W.w.IsLocked())
 	vreach("end")
 }
+
+// concurrent queries in a world that was Reset after earlier (non-LIFO) query use: the lock
+// pool starts over, every open query holds its own bit
+func VerifC13_AfterReset() {
+	W := vShapeRel(1, 60, true, 0)
+	qa := NewFilter1[vPos](W.w).Query()
+	qb := NewUnsafeFilter(W.w, W.id[cA]).Query()
+	qa.Close()
+	qb.Close()
+	W.w.Reset()
+	W.n = 0
+	p := W.create([]int{cA}, Entity{}, Entity{})
+	W.create([]int{cR1, cA}, W.e[p].h, Entity{})
+	W.create([]int{cA, cB}, Entity{}, Entity{})
+	f := NewFilter1[vPos](W.w)
+	warm := f.Query()
+	warm.Close()
+	n1, n2 := 0, 0
+	vthreads("race-free",
+		func() {
+			q := f.Query()
+			for q.Next() {
+				n1++
+			}
+		},
+		func() {
+			q := f.Query()
+			for q.Next() {
+				n2++
+			}
+			q2 := f.Query()
+			_ = q2.Count()
+			q2.Close()
+		})
+	vcheck("exact", n1 == 3 && n2 == 3)
+	vcheck("unlocked-after-join", !W.w.IsLocked())
+	lk := &W.w.storage.locks
+	vcheck("all-lock-bits-returned", lk.locks.bits == 0 && lk.bitPool.available == lk.bitPool.length)
+	vreach("end")
+}
